@@ -67,6 +67,38 @@ def run(chk):
             except Exception as ex: return (f'{scale}#non-string argument refused with ValueError', f'{fn.__name__}({v!r}) ({how}) raised {type(ex).__name__}: {ex}', {})
             return (f'{scale}#non-string argument refused with ValueError', f'{fn.__name__}({v!r}) ({how}) returned {r!r}: an argument that is not a label string was accepted', {'input': repr(v)})
     chk.bounded('label -> value: arguments that are not strings', list(odd_cases()), odd_check, classify=lambda c: (c[0], repr(c[2])), bound='5 scales x 15 non-string arguments (None, numbers, booleans, bytes, containers, objects printing like a label), positional and keyword')
+    # ---- the refusals do not depend on the interpreter's optimisation level (assert statements vanish under -O / -OO; docstrings under -OO)
+    import subprocess, json, sys as _sys, os as _os
+    from vf.check import SRC_ROOT as _SRC
+    OPT_SCRIPT = r'''
+import json
+import stix2.confidence.scales as SC
+out = []
+names = [n for n in dir(SC) if n.startswith('value_to_')]
+for n in names:
+    for v in (-300, -1, 101, 150, 10**30):
+        try: out.append([n, repr(v), repr(getattr(SC, n)(v))])
+        except ValueError: pass
+        except Exception as ex: out.append([n, repr(v), 'raised ' + type(ex).__name__])
+for n in [n for n in dir(SC) if n.endswith('_to_value')]:
+    for v in ('', 'no such label', 'HIGH', '11', 'Low\n'):
+        try: out.append([n, repr(v), repr(getattr(SC, n)(v))])
+        except ValueError: pass
+        except Exception as ex: out.append([n, repr(v), 'raised ' + type(ex).__name__])
+print(json.dumps([names, out]))
+'''
+    n_opt = 0
+    for flag in ('-O', '-OO'):
+        env = dict(_os.environ, PYTHONPATH=_SRC if _SRC != '/repo' else _os.environ.get('PYTHONPATH', ''), PYTHONDONTWRITEBYTECODE='1'); env.pop('PYTHONOPTIMIZE', None)
+        r = subprocess.run([_sys.executable, flag, '-c', OPT_SCRIPT], capture_output=True, text=True, env=env, timeout=300)
+        if r.returncode != 0: chk.faults.append(f'optimised-interpreter probe ({flag}) failed: {r.stderr[-300:]}'); continue
+        names, accepted = json.loads(r.stdout.strip().splitlines()[-1]); n_opt += 5 * len(names) + 25
+        if len(names) < 5: chk.faults.append(f'optimised-interpreter probe ({flag}): only {names} found')
+        for n, v, res in accepted:
+            chk.violation(f'{n}#refusal does not depend on the interpreter optimisation level', f'under python {flag}: {n}({v}) -> {res} (refused with ValueError without the flag)', {'flag': flag, 'function': n, 'input': v}); break
+    chk.bounded_runs.append({'name': 'refusals under python -O and -OO (fresh subprocess)', 'bound': '5 value->label functions x 5 out-of-range integers, 5 label->value functions x 5 unknown labels, 2 optimisation levels', 'evaluations': n_opt,
+                             'distinct_classes': None, 'witnesses': 0, 'wall_s': 0, 'samples': []})
+
     def kw_cases():
         for scale in K.SCALES:
             fn = getattr(SC, K.to_label_contract(scale).target.split('::')[1])
